@@ -216,9 +216,18 @@ pub fn in_guard_band(c: &Constraint, x: &[f64]) -> bool {
         Constraint::LinesAtAngle(l0, l1, AngleKind::Other(_)) => len(&l0.p0, &l0.p1) < 1e-3 || len(&l1.p0, &l1.p1) < 1e-3,
         Constraint::ArcAngle(a, _) => len(&a.center, &a.start) < 1e-3 || len(&a.center, &a.end) < 1e-3,
         Constraint::ArcRadius(a, _) => len(&a.center, &a.start) < 1e-3 || len(&a.center, &a.end) < 1e-3,
-        Constraint::PointArcCoincident(a, p) => len(&a.center, &a.start) < 1e-3 || len(&a.center, p) < 1e-3,
+        // (an arc whose start and end coincide has no sweep: the angular range test is degenerate)
+        Constraint::PointArcCoincident(a, p) => len(&a.center, &a.start) < 1e-3 || len(&a.center, p) < 1e-3 || len(&a.start, &a.end) < 1e-3 || len(&a.center, &a.end) < 1e-3,
         Constraint::PointLineDistance(_, l, _) => len(&l.p0, &l.p1) < 1e-3,
-        Constraint::CircleTangentToCircle(c0, c1) => len(&c0.center, &c1.center) < 1e-3,
+        // (a radius of zero is a degenerate circle: the nearer-tangency choice has a kink there)
+        Constraint::CircleTangentToCircle(c0, c1) => {
+            let (ra, rb) = (x[c0.radius.id as usize], x[c1.radius.id as usize]);
+            let d = len(&c0.center, &c1.center);
+            // internal tangency is the nearer one and the radii are (nearly) equal: the measure
+            // |ra - rb| - d has a kink there (two equal circles can only be internally tangent by coinciding)
+            let internal_nearer = (d - (ra - rb).abs()).abs() < (ra + rb - d).abs();
+            d < 1e-3 || ra.abs() < 1e-3 || rb.abs() < 1e-3 || (internal_nearer && (ra - rb).abs() < 1e-3)
+        }
         _ => false,
     }
 }
